@@ -2,12 +2,16 @@ package main
 
 import (
 	"bufio"
+	"context"
 	"fmt"
 	"math/rand"
 	"os"
+	"os/exec"
+	"path/filepath"
 	"regexp"
 	"strconv"
 	"strings"
+	"text/template"
 	"time"
 	"unicode"
 
@@ -20,6 +24,22 @@ import (
 )
 
 func main() {
+	if len(os.Args) > 1 && os.Args[1] == "exec" {
+		defer func() {
+			// scratch directories of workers that were killed or crashed
+			for _, root := range []string{"/dev/shm", os.TempDir()} {
+				old, _ := filepath.Glob(filepath.Join(root, fmt.Sprintf("vhsyn-%d-*", os.Getpid())))
+				for _, d := range old {
+					_ = os.RemoveAll(d)
+				}
+			}
+		}()
+	}
+	defer func() {
+		if binBase != "" {
+			_ = os.RemoveAll(binBase)
+		}
+	}()
 	sup.Main("syntax", &sup.Engine{Gen: syntaxGen, Work: syntaxWork, Recycle: 20000, Timeout: 30 * time.Second})
 }
 
@@ -174,6 +194,18 @@ func syntaxWork(c string) string {
 	lx, _ := withWatchdog(5*time.Second, func() string { return lexDump(in) })
 	out, printed, parsed := parseOutcome(in)
 	pr, re, rp := "none", "none", "none"
+	if len(fields) == 2 && fields[1] == "BIN" {
+		// the same sections, but PRINT / REPRINT are what the REAL BINARY leaves in the spokfile after `spok --fmt`
+		// (once, twice): the whole path cli/app -> read -> parse -> load -> Tree.String -> write is under test
+		if parsed {
+			after1, after2 := fmtBinary(in)
+			pr, rp = after1, after2
+			if b, ok := unhx(after1); ok && after1 != "fmtfail" {
+				re, _, _ = parseOutcome(b)
+			}
+		}
+		return fmt.Sprintf("LEX %s ; PARSE %s ; PRINT %s ; REPARSE %s ; REPRINT %s ; EXPECT %s", lx, out, pr, re, rp, expect)
+	}
 	if parsed {
 		pr = hx(printed)
 		o2, p2, ok2 := parseOutcome(printed)
@@ -183,6 +215,116 @@ func syntaxWork(c string) string {
 		}
 	}
 	return fmt.Sprintf("LEX %s ; PARSE %s ; PRINT %s ; REPARSE %s ; REPRINT %s ; EXPECT %s", lx, out, pr, re, rp, expect)
+}
+
+// fmtBinary: a project directory holding only the spokfile, HOME = its parent; `spok --fmt` twice; returns the
+// hex of the file after each (or "fmtfail" when the binary did not exit 0 or changed nothing it should have)
+var binBase string
+
+func fmtBinary(in string) (string, string) {
+	if binBase == "" {
+		root := os.TempDir()
+		if st, err := os.Stat("/dev/shm"); err == nil && st.IsDir() {
+			root = "/dev/shm"
+		}
+		b, err := os.MkdirTemp(root, fmt.Sprintf("vhsyn-%d-", os.Getppid()))
+		if err != nil {
+			return "fmtfail", "none"
+		}
+		binBase = b
+	}
+	home := filepath.Join(binBase, "h")
+	proj := filepath.Join(home, "p")
+	_ = os.RemoveAll(home)
+	if err := os.MkdirAll(proj, 0o755); err != nil {
+		return "fmtfail", "none"
+	}
+	defer os.RemoveAll(home)
+	sf := filepath.Join(proj, "spokfile")
+	if err := os.WriteFile(sf, []byte(in), 0o644); err != nil {
+		return "fmtfail", "none"
+	}
+	run := func() bool {
+		ctx, cancel := context.WithTimeout(context.Background(), 20*time.Second)
+		defer cancel()
+		cmd := exec.CommandContext(ctx, filepath.Join(os.Getenv("VERIF_BUILD"), "spok"), "--fmt")
+		cmd.Dir = proj
+		cmd.Env = []string{"HOME=" + home, "PATH=/usr/bin:/bin", "NO_COLOR=1"}
+		return cmd.Run() == nil
+	}
+	if !run() {
+		return "fmtfail", "none"
+	}
+	a1, err := os.ReadFile(sf)
+	if err != nil {
+		return "fmtfail", "none"
+	}
+	if !run() {
+		return hx(string(a1)), "fmtfail"
+	}
+	a2, err := os.ReadFile(sf)
+	if err != nil {
+		return hx(string(a1)), "fmtfail"
+	}
+	return hx(string(a1)), hx(string(a2))
+}
+
+// loadable: the spec is one `file.New` accepts (so that `--fmt`, which formats only what parses AND loads, goes
+// through): distinct task names, no builtin but join on string arguments, commands that are valid templates
+func loadable(spec []sNode) bool {
+	seen := map[string]bool{}
+	for _, n := range spec {
+		switch n.kind {
+		case "AF":
+			if n.fn != "join" {
+				return false
+			}
+			for _, a := range n.args {
+				if !a.isStr {
+					return false
+				}
+			}
+		case "T":
+			if seen[n.name] {
+				return false
+			}
+			seen[n.name] = true
+			for _, c := range n.cmds {
+				if _, err := template.New("t").Parse(c); err != nil {
+					return false
+				}
+			}
+		}
+	}
+	return true
+}
+
+// genBinary: loadable programs in admissible layouts, formatted by the real binary; with the things only the path
+// through cli/app meets: very long lines, CRLF files, no final newline
+func genBinary(w *bufio.Writer, rng *rand.Rand, n int) {
+	long := strings.Repeat("x", 70000)
+	for i := 0; i < n; {
+		g := &layoutGen{rng: rng, crlf: rng.Intn(3) == 0}
+		spec := g.genSpec(5)
+		if !specOK(spec) || !loadable(spec) {
+			continue
+		}
+		i++
+		src := g.render(spec)
+		switch i % 40 {
+		case 1:
+			src = "# " + long + "\n" + src
+		case 2:
+			src = src + "# tail " + long
+		case 3:
+			src = "task big() {\n    echo " + long + "\n}\n" + src
+		case 4:
+			src = "LONG := \"" + long + "\"\n" + src
+		case 5:
+			src = strings.TrimRight(src, "\r\n")
+		}
+		fmt.Fprintf(w, "%s BIN\n", hx(src))
+	}
 }
 
 // ---------------------------------------------------------------------------------------------
@@ -668,6 +810,7 @@ func syntaxGen(w *bufio.Writer, a map[string]string) {
 			fmt.Fprintln(w, hx(mutate(rng, p)))
 		}
 		genRandSymbols(w, rng, 20000*scale)
+		genBinary(w, rng, 1200*scale)
 	default: // C16, C08 and anything else: the malformed stream dominates
 		genRuneSweep(w, false)
 		if thorough {
